@@ -63,7 +63,7 @@ func (o sop) enc(c *ctx) string {
 	case 'N':
 		return fmt.Sprintf("N:%s:%s:%s:%s", common.HexS(o.a), common.HexS(o.b), common.HexS(o.c), colon(oracles(o.a, o.b, o.c)))
 	case 'L':
-		return fmt.Sprintf("L:%d:%s:%s", o.i, common.HexS(o.a), orc(nL(o.a)))
+		return fmt.Sprintf("L:%d:%s:%s", o.i, common.HexS(o.a), orcL(o.a))
 	case 'M':
 		return fmt.Sprintf("M:%d:%s:%s", o.i, common.HexS(o.a), colon(domOracles(o.a)))
 	case 'R':
